@@ -112,7 +112,7 @@ def behaviour(o):
 def value_sig(o):
     s = (str(o), o._get_type(), o._is_repeatable())
     if hasattr(o, '_get_verbose_pattern'):
-        s += (o._get_verbose_pattern(), getattr(o, '_Class__is_negated', None))
+        s += (o._get_verbose_pattern(),)
     return s
 
 
